@@ -10,6 +10,14 @@ import (
 	"strings"
 )
 
+// sl maps the property prefix of a schema label; differential harnesses report under their own property.
+func (g *Gen) sl(p string) string {
+	if g.SchemaProp != "" {
+		return g.SchemaProp + "/schema"
+	}
+	return p
+}
+
 func (g *Gen) schemaCheck(o *Occ) {
 	if !g.once("schemaCheck_" + o.ID) {
 		return
@@ -61,11 +69,18 @@ func (g *Gen) schemaCheck(o *Occ) {
 				// the corpus hooks return their argument with Type set, so the argument is observable
 				w(`  vrt.Assert("C17/"+path+"/%s:schema-hook-argument", a.Description == %q && a.Required == %v && a.Optional == %v && a.Computed == %v && a.Sensitive == %v)`,
 					name, s.Comment, s.Required, !s.Required, s.Computed, s.Sensitive)
+				w(`  vrt.Assert("C17/"+path+"/%s:schema-hook-argument-lists", len(a.Validators) == %d && len(a.PlanModifiers) == %d)`, name, len(s.Validators), len(s.PlanModifiers))
 			}
 		}
 		w(`}`)
 	}
-	g.p("func schemaCheck_%s(as map[string]tfsdk.Attribute, path string) {\n%s}\n", o.ID, b.String())
+	body := b.String()
+	if g.SchemaProp != "" {
+		for _, p := range []string{"C02", "C10", "C17"} {
+			body = strings.ReplaceAll(body, `vrt.Assert("`+p+`/"+path`, `vrt.Assert("`+g.SchemaProp+`/schema/"+path`)
+		}
+	}
+	g.p("func schemaCheck_%s(as map[string]tfsdk.Attribute, path string) {\n%s}\n", o.ID, body)
 	for _, s := range o.Slots {
 		if s.Sub != nil {
 			g.schemaCheck(s.Sub)
